@@ -107,6 +107,9 @@ def reduce {α} (f : α → α → α) : List α → M α
 /-- `itertools.product(a, b)` -/
 def product {α β} (a : List α) (b : List β) : List (α × β) := a.flatMap fun p => b.map fun q => (p, q)
 
+/-- `zip(*pairs) if pairs else ((), [])`: the two columns of a list of pairs -/
+def unzip {α β} (l : List (α × β)) : List α × List β := (l.map (·.1), l.map (·.2))
+
 /-- `zip(a, b)` -/
 def zip {α β} (a : List α) (b : List β) : List (α × β) := List.zip a b
 
@@ -156,6 +159,14 @@ def intOfStr : List Char → M Int
   | '-' :: cs => match digitsToNat cs with | some n => pure (-(Int.ofNat n)) | none => throw "ValueError"
   | '+' :: cs => match digitsToNat cs with | some n => pure (Int.ofNat n) | none => throw "ValueError"
   | cs => match digitsToNat cs with | some n => pure (Int.ofNat n) | none => throw "ValueError"
+
+/-- `re.match(r'^e[0-9a-fA-F]*$', s)`: an `e` followed by hexadecimal digits only -/
+def isHexChar (c : Char) : Bool :=
+  let n := c.toNat
+  (48 ≤ n && n ≤ 57) || (97 ≤ n && n ≤ 102) || (65 ≤ n && n ≤ 70)
+def isBladeName : List Char → Bool
+  | 'e' :: rest => rest.all isHexChar
+  | _ => false
 
 /-- `int(s, 2)` for a string of binary digits -/
 def intOfBin (s : List Char) : M Int :=
